@@ -1,0 +1,57 @@
+//go:build verif
+
+package btcdiff
+
+import (
+	"context"
+
+	"github.com/keep-network/keep-core/pkg/bitcoin"
+)
+
+// Verification hook (build tag verif): re-exports existing identifiers only.
+
+const VerifC43EpochLength = bitcoinDifficultyEpochLength
+
+var (
+	VerifC43ErrNotAuthorized = errNotAuthorized
+	VerifC43ErrNoGenesis     = errNoGenesis
+)
+
+func verifC43Maintainer(
+	config Config,
+	btcChain bitcoin.Chain,
+	chain Chain,
+) *bitcoinDifficultyMaintainer {
+	return &bitcoinDifficultyMaintainer{
+		config:   config,
+		btcChain: btcChain,
+		chain:    chain,
+	}
+}
+
+func VerifC43ControlLoop(
+	ctx context.Context,
+	config Config,
+	btcChain bitcoin.Chain,
+	chain Chain,
+) {
+	verifC43Maintainer(config, btcChain, chain).startControlLoop(ctx)
+}
+
+func VerifC43ProveEpochs(
+	ctx context.Context,
+	config Config,
+	btcChain bitcoin.Chain,
+	chain Chain,
+) error {
+	return verifC43Maintainer(config, btcChain, chain).proveEpochs(ctx)
+}
+
+func VerifC43ProveNextEpoch(
+	ctx context.Context,
+	config Config,
+	btcChain bitcoin.Chain,
+	chain Chain,
+) (bool, error) {
+	return verifC43Maintainer(config, btcChain, chain).proveNextEpoch(ctx)
+}
